@@ -1,3 +1,184 @@
-/-! Model for property C20 (core Lean only; no Mathlib). -/
+/-! Model for property C20 (core Lean only; no Mathlib).
+
+  A line-by-line model of the *dispatch* of
+
+    pytreenet/time_evolution/time_evolution.py : TimeEvoMode, time_evolve
+    pytreenet/util/std_utils.py               : fast_exp_action
+
+  The numerical routines themselves (scipy `expm`, `expm_multiply`, `eigsh`, sparse `expm`,
+  `solve_ivp`) are NOT modelled: the model answers *which* routine is called, with which generator
+  (`sign · i · H`), how the duration enters, and how the flat result is put back into the shape of
+  `psi` (C order).  -/
 namespace Ptn.C20
+
+/-! ### `TimeEvoMode` -/
+
+/-- The members of the Python enum `TimeEvoMode`, in declaration order. -/
+inductive Mode
+  | fastest | expm | eigsh | chebyshev | sparse | rk45 | rk23 | dop853 | bdf
+  deriving DecidableEq, Repr
+
+/-- All members (iteration order of the enum). -/
+def Mode.all : List Mode :=
+  [.fastest, .expm, .eigsh, .chebyshev, .sparse, .rk45, .rk23, .dop853, .bdf]
+
+/-- `mode.value`: the string attached to the enum member. -/
+def Mode.value : Mode → String
+  | .fastest => "fastest"
+  | .expm => "expm"
+  | .eigsh => "eigsh"
+  | .chebyshev => "chebyshev"
+  | .sparse => "sparse"
+  | .rk45 => "RK45"
+  | .rk23 => "RK23"
+  | .dop853 => "DOP853"
+  | .bdf => "BDF"
+
+/-- `TimeEvoMode(value)`: look a member up by its value. -/
+def Mode.ofValue? (s : String) : Option Mode :=
+  Mode.all.find? (fun m => m.value == s)
+
+/-- `TimeEvoMode.fastest_equivalent()`. -/
+def Mode.fastestEquivalent : Mode := .chebyshev
+
+/-- The membership test `self in [RK45, RK23, DOP853, BDF]`. -/
+def Mode.inScipyList (m : Mode) : Bool :=
+  [Mode.rk45, Mode.rk23, Mode.dop853, Mode.bdf].contains m
+
+/-- `TimeEvoMode.is_scipy`: `FASTEST` defers to its equivalent (which is not `FASTEST`, so the
+    Python recursion has depth one), every other member is looked up in the list. -/
+def Mode.isScipy (m : Mode) : Bool :=
+  if m = .fastest then Mode.fastestEquivalent.inScipyList else m.inScipyList
+
+/-! ### `fast_exp_action` -/
+
+/-- Which external routine ends up computing the result. -/
+inductive Routine
+  /-- `solve_ivp(rhs, (0, t), y0.astype(complex), method=…).y[:,-1]` (last stored point) -/
+  | solveIvp (method : String)
+  /-- `scipy.linalg.expm(E) @ v` -/
+  | expmDense
+  /-- `w, v = eigsh(E, k=k)` then `v @ diag(exp w) @ pinv(v) @ vec` -/
+  | eigshTrunc (k : Nat)
+  /-- `expm_multiply(E, v, traceA=trace(E))` -/
+  | expmMultiply
+  /-- `csr_matrix`, sparse `expm`, `.dot`, `.toarray()` -/
+  | expmSparse
+  /-- mode `"none"`: the vector is returned unchanged -/
+  | noAction
+  /-- `raise NotImplementedError` -/
+  | notImplemented
+  deriving DecidableEq, Repr
+
+/-- The routines whose *contract* is `exp(E) · v` (resp. the solution of `y' = G y` at `t`, which is
+    `exp(tG) · y0`).  `eigsh` with `k` eigenpairs is not among them: it returns a matrix of rank
+    at most `k` applied to the vector. -/
+def Routine.exactByContract : Routine → Bool
+  | .solveIvp _ | .expmDense | .expmMultiply | .expmSparse => true
+  | .eigshTrunc _ | .noAction | .notImplemented => false
+
+/-- `fast_exp_action(exponent, vector, mode)` as a function of the mode *string* and of
+    `n = exponent.shape[0]`; the `if` cascade of the source in the source's order. -/
+def fastExpAction (mode : String) (n : Nat) : Routine :=
+  let mode := if mode == "fastest" then "chebyshev" else mode
+  if mode == "expm" then .expmDense
+  else if mode == "eigsh" then
+    if n < 4 then .expmDense
+    else .eigshTrunc (min (n - 2) 8)
+  else if mode == "chebyshev" then .expmMultiply
+  else if mode == "sparse" then .expmSparse
+  else if mode == "none" then .noAction
+  else .notImplemented
+
+/-! ### `time_evolve` -/
+
+/-- `sign = -2 * forward + 1` in Python integer arithmetic (`True = 1`, `False = 0`). -/
+def sign (forward : Bool) : Int := -2 * (if forward then 1 else 0) + 1
+
+/-- A Gaussian integer `re + im·i`: enough to hold the scalar in front of `H`. -/
+structure GInt where
+  re : Int
+  im : Int
+  deriving DecidableEq, Repr
+
+def GInt.mul (a b : GInt) : GInt := ⟨a.re * b.re - a.im * b.im, a.re * b.im + a.im * b.re⟩
+def GInt.neg (a : GInt) : GInt := ⟨-a.re, -a.im⟩
+def GInt.ofInt (z : Int) : GInt := ⟨z, 0⟩
+def GInt.I : GInt := ⟨0, 1⟩
+
+/-- The scalar `c` of `rhs_matrix = sign * 1.0j * hamiltonian = c • H`. -/
+def rhsCoeff (forward : Bool) : GInt := (GInt.ofInt (sign forward)).mul GInt.I
+
+/-- How the duration enters. -/
+inductive TimeUse
+  /-- `exponent = rhs_matrix * time_difference`: the routine sees `t · c · H` -/
+  | factor
+  /-- `t_span = (0, t)`: the routine integrates `y' = c·H·y` from 0 to `t`; the last stored
+      point is taken -/
+  | span
+  deriving DecidableEq, Repr
+
+/-- A symbolic description of one call of `time_evolve`. -/
+structure Route where
+  /-- the routine that computes the flat result vector -/
+  routine : Routine
+  /-- the string handed to `fast_exp_action` (`none` in the `solve_ivp` branch) -/
+  feaArg : Option String
+  /-- the scalar in front of `H` in the generator -/
+  coeff : GInt
+  timeUse : TimeUse
+  /-- the initial value is cast to a complex dtype before it is handed to the routine
+      (`solve_ivp` integrates in the dtype of `y0`) -/
+  castComplex : Bool
+  /-- the result vector is reshaped (C order) to this shape -/
+  outShape : List Nat
+  deriving DecidableEq, Repr
+
+/-- `time_evolve(psi, hamiltonian, t, forward, mode)` with `n = hamiltonian.shape[0]` and
+    `shape = psi.shape`. -/
+def timeEvolve (mode : Mode) (forward : Bool) (n : Nat) (shape : List Nat) : Route :=
+  let coeff := rhsCoeff forward
+  if mode.isScipy then
+    { routine := .solveIvp mode.value, feaArg := none, coeff := coeff, timeUse := .span,
+      castComplex := true, outShape := shape }
+  else
+    { routine := fastExpAction mode.value n, feaArg := some mode.value, coeff := coeff,
+      timeUse := .factor, castComplex := false, outShape := shape }
+
+/-! ### `flatten` / `reshape` in C (row-major) order -/
+
+/-- number of elements of an array of this shape -/
+def size (shape : List Nat) : Nat := shape.foldr (· * ·) 1
+
+/-- `np.ravel_multi_index(idx, shape)`: position of the multi-index in `psi.flatten()`.
+    (Last axis fastest.) -/
+def ravel : List Nat → List Nat → Nat
+  | _ :: ds, i :: is => i * size ds + ravel ds is
+  | _, _ => 0
+
+/-- `np.unravel_index(k, shape)`: the multi-index at which `np.reshape(vec, shape)` puts
+    `vec[k]`. -/
+def unravel : List Nat → Nat → List Nat
+  | [], _ => []
+  | _ :: ds, k => (k / size ds) :: unravel ds (k % size ds)
+
+/-- `idx` is a valid multi-index of an array of shape `shape`. -/
+def ValidIdx : List Nat → List Nat → Prop
+  | [], [] => True
+  | d :: ds, i :: is => i < d ∧ ValidIdx ds is
+  | _, _ => False
+
+/-- A dense tensor as a function of its multi-index. `flatten` and `reshape` of NumPy (C order): -/
+def flatten {α : Type} (shape : List Nat) (t : List Nat → α) : Nat → α :=
+  fun k => t (unravel shape k)
+
+def reshape {α : Type} (shape : List Nat) (v : Nat → α) : List Nat → α :=
+  fun idx => v (ravel shape idx)
+
+/-- The value level of `time_evolve` relative to the routine: `psi.flatten()` goes through a map
+    `U` on flat vectors (the action of the selected routine) and comes back in `psi.shape`. -/
+def timeEvolveValue {α : Type} (shape : List Nat) (U : (Nat → α) → (Nat → α))
+    (psi : List Nat → α) : List Nat → α :=
+  reshape shape (U (flatten shape psi))
+
 end Ptn.C20
